@@ -68,6 +68,11 @@ def jobs(tier, seed):
             out.append({"suite": su, "shard": sh, "shards": shards, "seed": seed, "tier": tier, "cost": okv.suite_cost(su)})
     for su in okv.MON_SUITES:
         out.append({"suite": su, "shard": 0, "shards": 1, "seed": seed, "tier": tier, "cost": okv.suite_cost(su), "mon": True})
+    # the same workload on the build with overflow checks and debug assertions (the library as a `dev` profile compiles it):
+    # what a wrong password unmasks is pseudo-random, so rare shapes of that garbage are only reached by volume
+    ovf = ["r255+p256", "r255+p384", "r255+p521", "r255+x25519", "r255+r255"] if tier == "quick" else okv.SUITES20
+    for su in ovf:
+        out.append({"suite": su, "shard": 0, "shards": 1, "seed": seed + 7919, "tier": tier, "cost": 2 * okv.suite_cost(su), "flavour": "ovf"})
     return out
 
 
@@ -79,7 +84,7 @@ def run_job(job):
     stats = {"wrong_attempts": 0, "invalid_login": 0, "controls": 0, "by_family": {}, "by_site": {}, "route": {}, "sfinish_rejected": 0}
     seen = set()
     evals = 0
-    with okv.Session(su) as s:
+    with okv.Session(su, flavour=job.get("flavour", "release")) as s:
         regs = proto.password_classes(rnd, big=True)
         if thorough:
             # several registered passwords per class
@@ -131,6 +136,9 @@ def run_job(job):
                     seen.add((rlab, wpw if len(wpw) < 64 else proto.H(wpw), site))
                     case = {"suite": su, "registered": rlab, "registered_pw": proto.short(pw), "wrong_pw": proto.short(wpw), "family": fam,
                             "site": site, "explicit_ids": explicit}
+                    if job.get("flavour"):
+                        case["build"] = job["flavour"]
+                        stats["debug_build_attempts"] = stats.get("debug_build_attempts", 0) + 1
                     if job.get("mon"):
                         de = [e for e in r.get("dh", []) if e.get("op") == "de_pk"]
                         route = "pk-decode-failed" if any(not e["ok"] for e in de) else "envelope-mac-failed"
@@ -170,6 +178,8 @@ def floors(tier, stats, results):
     missing = [x for x in okv.SUITES20 if stats.get("suites", {}).get(x, 0) < 100]
     if missing:
         out.append("fewer than 100 wrong-password attempts for suites %s" % missing)
+    if stats.get("debug_build_attempts", 0) < 5000:
+        out.append("fewer than 5000 wrong-password attempts on the debug-assertions build")
     for site in ("both", "start-only", "finish-only"):
         if stats.get("by_site", {}).get(site, 0) < 500:
             out.append("fewer than 500 attempts at site %s" % site)
